@@ -1,4 +1,5 @@
 import ComposeVerif.Model.Val
+import ComposeVerif.Model.Paths
 /-!
 # Model of `loader/include.go`  (property C06: include ≡ paste of the resolved included model)
 
@@ -65,67 +66,50 @@ def veqM : List (String × Val) → List (String × Val) → Bool
   | _, _ => false
 end
 
-/-! ## file paths (`path/filepath`, unix) -/
+/-! ## file paths (`path/filepath`, unix)
 
-def isAbs (p : String) : Bool := p.startsWith "/"
+`Clean`, `Join`, `IsAbs` are the C12 model (`Model/Paths.lean`, on `List Char`, with `clean_idempotent`,
+`join_associative` … proved there); `Dir` and `Rel` are added here on the same representation.  The `String`
+wrappers keep the rest of the model readable; everything reduces in the kernel (`by decide` witnesses in `Neg/C06.lean`). -/
 
-/-- the segment stack of `Clean`: `.` and empty segments vanish, `..` pops (or stays, for relative paths) -/
-def cleanSegs (rooted : Bool) : List String → List String → List String
-  | acc, [] => acc.reverse
-  | acc, s :: rest =>
-    if s = "" ∨ s = "." then cleanSegs rooted acc rest
-    else if s = ".." then
-      match acc with
-      | [] => if rooted then cleanSegs rooted [] rest else cleanSegs rooted [".."] rest
-      | a :: acc' => if a = ".." then cleanSegs rooted (".." :: a :: acc') rest else cleanSegs rooted acc' rest
-    else cleanSegs rooted (s :: acc) rest
+abbrev Str := CV.Str
 
-def segs (p : String) : List String := p.splitOn "/"
+def isAbs (p : String) : Bool := Paths.isAbs p.toList
 
 /-- `filepath.Clean` -/
-def clean (p : String) : String :=
-  if p = "" then "." else
-  let rooted := isAbs p
-  let out := cleanSegs rooted [] (segs p)
-  let body := "/".intercalate out
-  if rooted then "/" ++ body else if body = "" then "." else body
+def clean (p : String) : String := String.ofList (Paths.clean p.toList)
 
 /-- `filepath.Join(a, b)`: empty elements are ignored, the result is cleaned -/
-def join (a b : String) : String :=
-  if a = "" ∧ b = "" then ""
-  else if a = "" then clean b
-  else if b = "" then clean a
-  else clean (a ++ "/" ++ b)
+def join (a b : String) : String := String.ofList (Paths.join a.toList b.toList)
+
+/-- `filepath.Dir` on characters: `Clean` of everything up to and including the last separator -/
+def dirC (p : Str) : Str := Paths.clean ((p.reverse.dropWhile (fun c => c ≠ '/')).reverse)
 
 /-- `filepath.Dir` -/
-def dir (p : String) : String :=
-  match (segs p).reverse with
-  | [] => "."
-  | _ :: initRev =>
-    -- everything up to and including the last separator
-    if initRev.isEmpty then "." else clean ("/".intercalate initRev.reverse ++ "/")
+def dir (p : String) : String := String.ofList (dirC p.toList)
 
-def stripCommon : List String → List String → List String × List String
+def stripCommon : List Str → List Str → List Str × List Str
   | a :: as, b :: bs => if a = b then stripCommon as bs else (a :: as, b :: bs)
   | as, bs => (as, bs)
 
-def relSegs (p : String) : List String :=
-  let c := clean p
-  if c = "." then [] else (segs c).filter (· ≠ "")
+def relSegs (c : Str) : List Str :=
+  if c = Paths.dot then [] else (Paths.splitSlash c).filter (fun s => s ≠ [])
 
-/-- `filepath.Rel(base, targ)`; `none` = the error "can't make … relative to …" -/
-def rel (base targ : String) : Option String :=
-  let b := clean base
-  let t := clean targ
-  if b = t then some "." else
-  if isAbs b ≠ isAbs t then none else
+/-- `filepath.Rel(base, targ)` on characters; `none` = the error "can't make … relative to …" -/
+def relC (base targ : Str) : Option Str :=
+  let b := Paths.clean base
+  let t := Paths.clean targ
+  if b = t then some Paths.dot else
+  if Paths.isAbs b ≠ Paths.isAbs t then none else
   -- Go normalises a base of "." to "" but leaves a target of "." alone (`Rel("a", ".") = "../."`)
-  let (br, tr) := stripCommon (relSegs b) (if t = "." then ["."] else relSegs t)
-  match br with
-  | ".." :: _ => none
-  | _ =>
-    let out := br.map (fun _ => "..") ++ tr
-    some (if out.isEmpty then "." else "/".intercalate out)
+  let st := stripCommon (relSegs b) (if t = Paths.dot then [Paths.dot] else relSegs t)
+  if st.1.head? = some Paths.dotdot then none
+  else
+    let out := st.1.map (fun _ => Paths.dotdot) ++ st.2
+    some (if out.isEmpty then Paths.dot else Paths.joinSlash out)
+
+/-- `filepath.Rel(base, targ)` -/
+def rel (base targ : String) : Option String := (relC base.toList targ.toList).map String.ofList
 
 /-! ## environments (`types.Mapping`) -/
 
